@@ -742,7 +742,11 @@ func (b *byzantine) maybeSplitProposal(src *node, ms []outMsg, out *[]routed) []
 			}
 		}
 	}
-	if pi < 0 || pm.POLRound >= 0 || src.inc == nil || src.inc.chain == nil || src.inc.chain.sm == nil || !t.Permille("byz.split", 500) {
+	splitPm := 500
+	if pi >= 0 && pm.Round > 0 {
+		splitPm = 850 // later rounds are where locks exist: make the most of being the proposer there
+	}
+	if pi < 0 || pm.POLRound >= 0 || src.inc == nil || src.inc.chain == nil || src.inc.chain.sm == nil || !t.Permille("byz.split", splitPm) {
 		return ms
 	}
 	ps := consensus.NewPartSetFromID(pm.BlockPartSetID)
@@ -816,6 +820,12 @@ func (b *byzantine) maybeSplitProposal(src *node, ms []outMsg, out *[]routed) []
 	}
 	np := consensus.NewProposalMessage()
 	np.Height, np.Round, np.BlockPartSetID, np.POLRound, np.NID = pm.Height, pm.Round, sps.ID(), -1, pm.NID
+	if pm.Round > 0 && t.Permille("byz.pol.lie", 800) {
+		// a lie about the proof-of-lock round: the sibling is presented as if it had had a polka in an earlier
+		// round of this height (validators locked there hold a polka of that round - for their own block)
+		np.POLRound = int32(t.Choose("byz.pol.round", int(pm.Round)))
+		s.rc.Fault("byz_proposal_with_false_pol_round")
+	}
 	_ = np.Sign(src.w)
 	sibProposal := codec.BC.MustMarshalToBytes(np)
 	skip := map[int]bool{pi: true}
@@ -845,7 +855,16 @@ func (b *byzantine) maybeSplitProposal(src *node, ms []outMsg, out *[]routed) []
 				}
 			}
 		} else {
-			*out = append(*out, mk(consensus.ProtoProposal, ms[pi].data))
+			origProposal := ms[pi].data
+			if np.POLRound >= 0 {
+				// the genuine block too, under the same false proof-of-lock round
+				op := consensus.NewProposalMessage()
+				op.Height, op.Round, op.BlockPartSetID, op.POLRound, op.NID = pm.Height, pm.Round, pm.BlockPartSetID, np.POLRound, pm.NID
+				if op.Sign(src.w) == nil {
+					origProposal = codec.BC.MustMarshalToBytes(op)
+				}
+			}
+			*out = append(*out, mk(consensus.ProtoProposal, origProposal))
 			for _, i := range partIdx {
 				*out = append(*out, mk(consensus.ProtoBlockPart, ms[i].data))
 			}
@@ -873,9 +892,19 @@ func (b *byzantine) forgeBlock(src *node, hf *block.V2HeaderFormat, bf *block.V2
 	case "C07":
 		kinds := []string{"height+1", "height-1", "previd-random", "previd-grandparent", "version", "timestamp+1", "timestamp-1", "timestamp=parent", "timestamp<parent", "sibling-retimed", "sibling-retimed"}
 		k := kinds[t.Choose("forge.c07", len(kinds))]
+		if h == 1 && t.Permille("forge.c07.h1", 600) {
+			// not a forgery at all: nothing constrains the timestamp of a height-1 block, so the proposer may
+			// put it into the future. What it sets up is the rule for height 2: "strictly greater than the
+			// parent's timestamp" against a parent whose timestamp is large (with validators whose vote
+			// timestamps lag, the median for height 2 can come out at or below it).
+			k = "height1-future-timestamp"
+		}
 		info.kind = k
 		parentTS, haveParent := b.blockTS[hex.EncodeToString(hf.PrevID)]
 		switch k {
+		case "height1-future-timestamp":
+			nh.Timestamp = common.UnixMicroFromTime(time.Now()) + int64(1+t.Choose("forge.h1ts", 20))*1000000
+			info.invalid = false
 		case "height+1":
 			nh.Height++
 		case "height-1":
@@ -935,7 +964,7 @@ func (b *byzantine) forgeBlock(src *node, hf *block.V2HeaderFormat, bf *block.V2
 			return nil, nil
 		}
 		n := len(b.s.orc.validators[h-1])
-		kinds := []string{"minus-to-2/3", "minus-to-2/3+1", "duplicate", "foreign-key", "other-round", "bitflip", "prev-height-list", "empty", "time-shift", "unrecoverable", "no-recovery-id"}
+		kinds := []string{"minus-to-2/3", "minus-to-2/3+1", "duplicate", "foreign-key", "other-round", "bitflip", "prev-height-list", "empty", "time-shift", "unrecoverable", "no-recovery-id", "duplicates-spread", "duplicates-spread"}
 		k := kinds[t.Choose("forge.c05", len(kinds))]
 		info.kind = k
 		items := append([]cvlItem(nil), c.Items...)
@@ -963,6 +992,23 @@ func (b *byzantine) forgeBlock(src *node, hf *block.V2HeaderFormat, bf *block.V2
 			for len(items) > keep {
 				i := t.Choose("forge.drop", len(items))
 				items = append(items[:i], items[i+1:]...)
+			}
+		case "duplicates-spread":
+			// too few distinct signers, repeated round-robin until the list is long enough to look like a
+			// quorum: [A,B,A,B,...]. Every repetition is far from the original (whatever order or grouping the
+			// verifier works in).
+			if len(items) < 2 {
+				return nil, nil
+			}
+			d := 1 + t.Choose("forge.dsp.d", 2*n/3) // distinct signers: 1 .. floor(2n/3), never a quorum
+			if d > len(items) {
+				d = len(items)
+			}
+			m := 2*n/3 + 1 + t.Choose("forge.dsp.m", n-2*n/3)
+			base := append([]cvlItem(nil), items[:d]...)
+			items = items[:0]
+			for i := 0; i < m; i++ {
+				items = append(items, base[i%d])
 			}
 		case "duplicate":
 			if len(items) < 2 {
@@ -1054,7 +1100,7 @@ func (b *byzantine) forgeBlock(src *node, hf *block.V2HeaderFormat, bf *block.V2
 			b.s.rc.Probe("forged_cvl_still_valid")
 		}
 	case "C08":
-		kinds := []string{"votes-hash-mismatch", "tx-body-swap", "random-bytes", "truncated", "byteflip", "body-of-other-block", "btp-digest-junk", "btp-digest-other-valid", "header-field-nil", "header-field-garbage", "body-field-nil", "votes-bad-signature"}
+		kinds := []string{"votes-hash-mismatch", "tx-body-swap", "random-bytes", "truncated", "byteflip", "body-of-other-block", "btp-digest-junk", "btp-digest-other-valid", "header-field-nil", "header-field-garbage", "body-field-nil", "votes-bad-signature", "votes-noncanonical"}
 		k := kinds[t.Choose("forge.c08", len(kinds))]
 		info.kind = k
 		switch k {
@@ -1116,6 +1162,36 @@ func (b *byzantine) forgeBlock(src *node, hf *block.V2HeaderFormat, bf *block.V2
 				return nil, nil
 			}
 			nb.Votes = pv
+		case "votes-noncanonical":
+			// the same vote list in an encoding a node never writes (junk after the list inside the votes
+			// field, or an explicit empty fourth element), with the header committing to exactly those bytes.
+			// What the header binds is the vote list as the node serializes it: the decoder must refuse.
+			var c cvlFormat
+			if _, err := codec.BC.UnmarshalFromBytes(bf.Votes, &c); err != nil || len(c.Items) == 0 {
+				return nil, nil
+			}
+			canon := encodeCVL(&c, nil)
+			if t.Choose("forge.vnc", 2) == 0 {
+				nb.Votes = append(append([]byte(nil), canon...), t.Bytes("forge.vnc.tail", 1+t.Choose("forge.vnc.n", 4))...)
+				info.kind = k + ":trailing-bytes"
+			} else {
+				r := struct {
+					Round int32
+					PSID  *consensus.PartSetIDAndAppData
+					Items []cvlItemRaw
+					Extra [][]byte
+				}{Round: c.Round, PSID: c.PSID, Extra: [][]byte{}}
+				for _, it := range c.Items {
+					bs, _ := it.Signature.MarshalBinary()
+					r.Items = append(r.Items, cvlItemRaw{it.Timestamp, bs})
+				}
+				nb.Votes = codec.BC.MustMarshalToBytes(&r)
+				info.kind = k + ":explicit-empty-proofs"
+			}
+			if bytes.Equal(nb.Votes, bf.Votes) {
+				return nil, nil
+			}
+			nh.VotesHash = crypto.SHA3Sum256(nb.Votes)
 		case "votes-bad-signature":
 			// a vote list that is consistently bound to the header but contains a signature the codec can
 			// decode and not encode (no recovery id) or nobody can recover a key from: the decoder hashes the
